@@ -358,6 +358,40 @@ def check_owned(repo, qualname, label, sink, unless=None):
                  reason=None if ok else "value reaching %s is not a deep copy: %s" % (sink, "; ".join(bad)))]
 
 
+def check_argfrom(repo, qualname, label, callee, idx, producer):
+    """Every call of `callee` inside the function passes, as its idx-th positional argument, the result of `<x>.<producer>(...)`
+    (possibly through locals all of whose assignments are such calls)."""
+    found = repo.find(qualname)
+    name = "%s#origin:%s" % (qualname, label)
+    if found is None:
+        return [dict(name=name, kind="origin", result="undischarged", backend="static", seconds=0.0, reason="function not found")]
+    fdef = found[0]
+
+    def from_producer(e, seen=frozenset()):
+        if isinstance(e, ast.Call):
+            f = e.func
+            return (isinstance(f, ast.Attribute) and f.attr == producer) or (isinstance(f, ast.Name) and f.id == producer)
+        if isinstance(e, ast.IfExp):
+            return from_producer(e.body, seen) and from_producer(e.orelse, seen)
+        if isinstance(e, ast.Name) and e.id not in seen:
+            vals = [n.value for n in ast.walk(fdef) if isinstance(n, ast.Assign) and any(isinstance(t, ast.Name) and t.id == e.id for t in n.targets)]
+            return bool(vals) and all(from_producer(v, seen | {e.id}) for v in vals)
+        return False
+    sites = []
+    for n in ast.walk(fdef):
+        if isinstance(n, ast.Call):
+            f = n.func
+            fname = f.id if isinstance(f, ast.Name) else f.attr if isinstance(f, ast.Attribute) else None
+            if fname == callee and len(n.args) > idx:
+                sites.append(n.args[idx])
+    if not sites:
+        return [dict(name=name, kind="origin", result="undischarged", backend="static", seconds=0.0, reason="no call of %s in the function" % callee)]
+    bad = [ast.unparse(a) for a in sites if not from_producer(a)]
+    ok = not bad
+    return [dict(name=name, kind="origin", result="discharged" if ok else "undischarged", backend="static", seconds=0.0,
+                 reason=None if ok else "argument %d of %s is not produced by %s: %s" % (idx, callee, producer, "; ".join(bad)))]
+
+
 def run_static(repo, spec):
     kind = spec[0]
     if kind == "inherits":
@@ -368,6 +402,8 @@ def run_static(repo, spec):
         return check_atomic_helper(repo, spec[1], spec[2])
     if kind == "no-inplace":
         return check_no_inplace(repo, spec[1], spec[2], spec[3])
+    if kind == "argfrom":
+        return check_argfrom(repo, spec[1], spec[2], spec[3], spec[4], spec[5])
     if kind == "owned":
         return check_owned(repo, spec[1], spec[2], spec[3], spec[4] if len(spec) > 4 else None)
     if kind == "contains":
